@@ -79,7 +79,7 @@ func c19Order(r *core.Run, p *core.Program, rule, key string, fn *ssa.Function, 
 
 func evCall(name string, callee string, argIdx int, atoms ...string) c19Ev {
 	return c19Ev{name, func(i ssa.Instruction) bool {
-		c, ok := i.(ssa.CallInstruction)
+		c, ok := i.(*ssa.Call) // a synchronous call: deferred and go statements do not count as "done here"
 		if !ok || an.CallName(c) != callee {
 			return false
 		}
